@@ -268,4 +268,26 @@ theorem languages_change_drops (decode : List Nat → Option (Nat × Nat × Cach
     loadCache decode version h' (some b) = [] := by
   simp [loadCache, hd, hne]
 
+/-! ### what a cache key must be (repair 2b73ec2)
+
+  The transparency theorems above are stated over `Path`, the identity of a file.  The code keys
+  entries by a string; for the theorems to apply, equal keys must mean the same file.  A key made
+  of the path as walked from the working directory does not have that property once invocations
+  start in different directories; the absolute path has it. -/
+
+/-- a walked path (segments below the working directory) seen from a working directory (segments
+    below the file-system root) -/
+def absKey (cwd walked : List (List Char)) : List (List Char) := cwd ++ walked
+def relKey (_cwd walked : List (List Char)) : List (List Char) := walked
+
+/-- absolute keys: equal keys, same file (same absolute location) -/
+theorem absKey_identifies (c1 w1 c2 w2 : List (List Char)) (h : absKey c1 w1 = absKey c2 w2) :
+    c1 ++ w1 = c2 ++ w2 := h
+
+/-- keys relative to the working directory do not: `./b.rs` from the project root and `./b.rs`
+    from `src/` are one key and two files -/
+theorem relKey_collides :
+    ∃ c1 w1 c2 w2, relKey c1 w1 = relKey c2 w2 ∧ c1 ++ w1 ≠ c2 ++ w2 :=
+  ⟨[['p']], [['b', '.', 'r', 's']], [['p'], ['s', 'r', 'c']], [['b', '.', 'r', 's']], rfl, by decide⟩
+
 end SlocModel.Props.C12
